@@ -3,6 +3,7 @@ C10 — a container reads the same however its packs are packaged.
 (lookup chain; container-pack layout and blind open theorems are added from Lemmas/Container.lean)
 -/
 import JubakoModel.Model.Container
+import JubakoModel.Lemmas.Container
 
 namespace Jubako
 
@@ -18,5 +19,98 @@ theorem c10_lookup_fallback (fs : FS) (entryFile : String) (entryPacks : List Pa
     (loc : String) (h : entryPacks.find? (fun q => q.uuid == u) = none) :
     locate fs entryFile entryPacks u loc = fsLocate fs u loc := by
   simp [locate, h]
+
+
+/-- **A written container pack reads back**: blind open of the file `ContainerPackCreator` /
+    `tools::concat` writes (repaired size, D12) finds exactly the packs that were put in, at the
+    positions recorded by the locators … -/
+theorem c10_container_roundtrip (uuid freeData : Bytes) (packs : List (Bytes × Bytes))
+    (hu : uuid.length = 16) (hf : freeData.length = 24) (hpu : ∀ p ∈ packs, p.1.length = 16)
+    (hn : packs.length < 2 ^ 16) (hl : (containerPackWrite uuid freeData packs).length < 2 ^ 64) :
+    blindOpen (containerPackWrite uuid freeData packs) =
+      .ok ((concatLayout packs).2.map (fun l => ⟨l.uuid, l.pos, l.size⟩)) :=
+  blindOpen_write_ok uuid freeData packs hu hf hpu hn hl
+
+/-- … and the region a locator designates in the written file is exactly that pack's bytes
+    (distinct uuids) -/
+theorem c10_locator_region (uuid freeData : Bytes) (packs : List (Bytes × Bytes))
+    (hu : uuid.length = 16) (hf : freeData.length = 24) (hn : (packs.map (·.1)).Nodup)
+    (u b : Bytes) (h : (u, b) ∈ packs) :
+    ((concatLayout packs).2.find? (fun l => l.uuid == u)).map
+      (fun l => slice (containerPackWrite uuid freeData packs) l.pos l.size) = some b :=
+  containerPackWrite_lookup uuid freeData packs hu hf hn u b h
+
+/-- **Re-assembly by concatenation in any order**: looking a pack up by uuid in the container laid
+    out from any permutation of the same packs gives the same bytes (or the same absence). -/
+theorem c10_concat_any_order (packs packs' : List (Bytes × Bytes)) (hp : packs.Perm packs')
+    (hn : (packs.map (·.1)).Nodup) (u : Bytes) :
+    lookupPack (concatLayout packs').1 (concatLayout packs').2 u =
+      lookupPack (concatLayout packs).1 (concatLayout packs).2 u :=
+  concat_lookup_perm packs packs' hp hn u
+
+/-- **Embedded at the end of another file**: for every prefix whose first bytes are not themselves
+    a valid pack header, blind open finds the container through its mirrored tail, with every pack
+    region shifted by exactly the prefix length (needs both the tail fallback, D9, and the correct
+    declared size, D12). -/
+theorem c10_embedded (uuid freeData : Bytes) (packs : List (Bytes × Bytes)) (pre : Bytes)
+    (hu : uuid.length = 16) (hf : freeData.length = 24) (hpu : ∀ p ∈ packs, p.1.length = 16)
+    (hn : packs.length < 2 ^ 16) (hl : (containerPackWrite uuid freeData packs).length < 2 ^ 64)
+    (hv : PackHeader.decode ((pre ++ containerPackWrite uuid freeData packs).take 60) ≠ .err .version)
+    (hbad : ∀ h, (do let hd ← readBlock (pre ++ containerPackWrite uuid freeData packs) 0 60
+                     PackHeader.decode hd : Outcome PackHeader) ≠ .ok h) :
+    blindOpen (pre ++ containerPackWrite uuid freeData packs) =
+      .ok ((concatLayout packs).2.map (fun l => ⟨l.uuid, pre.length + l.pos, l.size⟩)) :=
+  blindOpen_prefix_write uuid freeData packs pre hu hf hpu hn hl hv hbad
+
+/-- the two prefix hypotheses of `c10_embedded` hold for every prefix that does not start with the
+    magic's first byte `j` (non-vacuity, and the common case of a container appended to an
+    executable or an image) -/
+theorem c10_prefix_hyps (b : UInt8) (rest w : Bytes) (hb : b ≠ 106) :
+    PackHeader.decode (((b :: rest) ++ w).take 60) ≠ .err .version ∧
+    ∀ h, (do let hd ← readBlock ((b :: rest) ++ w) 0 60
+             PackHeader.decode hd : Outcome PackHeader) ≠ .ok h := by
+  have key : ∀ bs : Bytes, bs.head? = some b → ∀ h, PackHeader.decode bs ≠ .ok h ∧ PackHeader.decode bs ≠ .err .version := by
+    intro bs hbs h
+    unfold PackHeader.decode
+    by_cases h1 : bs.length < 60
+    · rw [if_pos h1]; exact ⟨nofun, nofun⟩
+    · rw [if_neg h1]
+      have h2 : bs.take 3 ≠ [106, 98, 107] := by
+        cases bs with
+        | nil => simp at hbs
+        | cons x xs =>
+          simp only [List.head?_cons, Option.some.injEq] at hbs
+          subst hbs
+          intro hx
+          simp [List.take_succ_cons] at hx
+          exact hb hx.1
+      rw [if_pos h2]; exact ⟨nofun, nofun⟩
+  constructor
+  · by_cases hl : ((b :: rest) ++ w).take 60 = []
+    · rw [hl]; unfold PackHeader.decode; simp
+    · exact (key _ (by simp [List.take_succ_cons]) ⟨.content, [], 0, 0, [], 0, 0, 0⟩).2
+  · intro h
+    cases hr : readBlock ((b :: rest) ++ w) 0 60 with
+    | ok hd =>
+      have hd' := (c05_like hr)
+      simp only [bind, Outcome.bind]
+      exact (key hd hd' h).1
+    | err k => simp [bind, Outcome.bind]
+    | panic s => simp [bind, Outcome.bind]
+    | hang => simp [bind, Outcome.bind]
+    | fault => simp [bind, Outcome.bind]
+where
+  c05_like {f : Bytes} {hd : Bytes} (h : readBlock f 0 60 = .ok hd) : hd.head? = f.head? := by
+    unfold readBlock at h
+    by_cases h1 : 0 + 60 + 4 ≤ f.length
+    · rw [if_pos h1] at h
+      by_cases h2 : checkBlock (slice f 0 (60 + 4)) = true
+      · simp only [h2, if_true] at h
+        cases h
+        cases f with
+        | nil => simp at h1
+        | cons x xs => simp [slice, List.take_succ_cons]
+      · simp [h2] at h
+    · rw [if_neg h1] at h; cases h
 
 end Jubako
